@@ -247,6 +247,12 @@ int refprog_run (const ProgSpec *ps, const RunCfg *rc, const Arena *pristine, Re
           const ArenaArr *a = &pristine->a[in->s[0]];
           int ok = 0;
           if (sv[1].fr || sv[1].nan || sv[2].fr || sv[2].nan) { snprintf (out->why, sizeof out->why, "load offset depends on an unpinned value"); out->unsupported = 1; goto done; }
+          if (mult > 1 && ps_plain_ldst (op)) {
+            /* a prefixed loadX reads one element of the array's own (2x / 4x) size */
+            uint64_t x = 0;
+            memcpy (&x, a->base + (long) r * a->stride + i * ps->vars[in->s[0]].size, (size_t) ps->vars[in->s[0]].size);
+            dv[0].v = x; ok = 1;
+          } else
           dv[0].v = ref_load (op->name, a->base + (long) r * a->stride, i, (int32_t) sv[1].v, (int32_t) sv[2].v, &ok);
           if (!ok) { snprintf (out->why, sizeof out->why, "no load semantics for %s", op->name); out->unsupported = 1; goto done; }
         } else if (op->flags & VOP_ACC) {
